@@ -117,3 +117,139 @@ def rule_origin(rep, fb, floor=6):
                                 detail="%s offsets with %s content" % (o, c))
         cs.each_block_cont(f["body"], onblock)
     return r.done()
+
+
+NEXT_METHODS = ("reduce_next", "sort_next", "argsort_next")
+
+
+def _derives_from_offsets(e):
+    return bool(find_all((e,), lambda n: n == ("member", ("this",), "offsets_")))
+
+
+def _is_rebase_guard(st):
+    """if (offsets_.getitem_at_nowrap(0) != 0) { ... return <toListOffsetArray64(true)->same method>; }"""
+    if st[0] != "if" or st[1][0] == "declcond":
+        return False
+    c = cexpr(st[1])
+    test = bool(find_all((c,), lambda n: n[0] == "bin" and n[1] == "!=" and ("const", 0) in (n[2], n[3]) and find_all((n,), lambda k: k[0] == "mcall" and k[1] in ("getitem_at_nowrap", "getitem_at") and k[2] == ("member", ("this",), "offsets_"))))
+    if not test or not st[2]:
+        return False
+    return st[2][-1][0] == "return" and bool(find_all(st[2], lambda n: n[0] == "mcall" and n[1] == "toListOffsetArray64"))
+
+
+def _starts_values_unused(fb, method):
+    """in every definition of `method`, the parameter `starts` is only forwarded (same-named call, same position), passed to another *_sort helper that is checked the same way, or asked for its length"""
+    ok = True
+    n = 0
+    for f in fb.lib_funcs():
+        if f["name"] != method:
+            continue
+        pn = [p[0] for p in f["params"]]
+        if "starts" not in pn:
+            continue
+        n += 1
+        uses = find_all(f["body"], lambda k: k == ("var", "starts"))
+        allowed = 0
+        for m in find_all(f["body"], lambda k: k[0] == "mcall" and k[1] in ("length",) and k[3] == ("var", "starts")):
+            allowed += 1
+        for m in find_all(f["body"], lambda k: k[0] == "mcall" and k[1] == method):
+            allowed += sum(1 for a in m[4] if a == ("var", "starts"))
+        if allowed < len(uses):
+            ok = False
+    return ok and n > 0
+
+
+def rule_rebase(rep, fb, floor=3):
+    r = rep.rule("ORIGIN.rebase-guard", "in the list-offset node's reduce_next/sort_next/argsort_next, a recursive call on content trimmed to [globalstart, globalstop) that also passes values derived from offsets_ "
+                 "(util::make_starts(offsets_)) is dominated by the rebase guard `if (offsets_[0] != 0) return toListOffsetArray64(true)->...`; and that receiver is the trimmed content on every path", floor=floor)
+    unused = {m: _starts_values_unused(fb, m) for m in NEXT_METHODS}
+    for m_, u in unused.items():
+        if u:
+            r.ok("starts-values-unused:" + m_, "no definition of %s reads the values of 'starts' (only its length / forwarding): the rebase guard is not needed for it" % m_)
+    for f in fb.lib_funcs():
+        if f["cls"] != "ListOffsetArrayOf" or f["name"] not in NEXT_METHODS:
+            continue
+
+        def onblock(stmts, cont, f=f):
+            for i, s in enumerate(stmts):
+                for e in cs.head_exprs(s):
+                    for m in find_all((e,), lambda n: n[0] == "mcall" and n[1] == f["name"]):
+                        defs = cs.scoped_defs(cs._PseudoSite(f, stmts, i, cont))
+                        recv = m[3]
+                        while recv[0] == "deref":
+                            recv = recv[1]
+                        if recv[0] != "var":
+                            continue
+                        ds = defs.get(recv[1]) or []
+                        kinds = [(_content_kind(d[3], defs) if d[3] is not None else None) for d in ds]
+                        if "TRIMMED" not in kinds:
+                            continue
+                        key = "%s::%s->%s" % (f["cls"], f["name"], recv[1])
+                        where = "%s:%d" % (f["file"], m[-1])
+                        r.check(all(k == "TRIMMED" for k in kinds), key + ":trimmed-on-all-paths", where,
+                                "%s::%s recurses into '%s', which is the trimmed content on one path but %s on another; the parents/starts passed with it are sized for the trimmed range" % (f["cls"], f["name"], recv[1], [k for k in kinds if k != "TRIMMED"]),
+                                detail="receiver is content_[globalstart:globalstop) on every path")
+                        if any(_derives_from_offsets(a) for a in m[4]) and not unused[f["name"]]:
+                            dominated = False
+                            for blk, idx in [(stmts, i)] + [(pb, pi) for pb, pi, pk in cont]:
+                                if any(_is_rebase_guard(st) for st in blk[:idx]):
+                                    dominated = True
+                            r.check(dominated, key + ":rebase-guard", where,
+                                    "%s::%s passes offsets_-derived starts together with zero-based trimmed content, but the call is not dominated by the `offsets_[0] != 0 -> toListOffsetArray64(true)` rebase guard" % (f["cls"], f["name"]),
+                                    detail="dominated by the rebase guard")
+        cs.each_block_cont(f["body"], onblock)
+    return r.done()
+
+
+def rule_merge_regular(rep, fb):
+    r = rep.rule("ORIGIN.merge-regular", "ListArray::mergemany merges a RegularArray's own content_ but advances the content base by the length of the content of toListOffsetArray64(true); "
+                 "while it does so, RegularArray::toListOffsetArray64/broadcast_tooffsets64 must return its content_ untrimmed (same length), otherwise every array merged after it is misaligned", floor=1)
+    mm = [f for f in fb.lib_funcs() if f["cls"] == "ListArrayOf" and f["name"] == "mergemany"]
+    if not mm:
+        from ..core import AnalysisError
+        raise AnalysisError("ListArrayOf::mergemany not found")
+    f = mm[0]
+    # (a) does mergemany depend on the conversion keeping the content?
+    pushes_own = False
+    advances_converted = False
+    for iff in find_all(f["body"], lambda n: n[0] == "if" and isinstance(n[-1], int) and n[1][0] == "declcond" and "RegularArray" in str(n[1][2])):
+        var = iff[1][1]
+        if find_all(iff[2], lambda n: n[0] == "mcall" and n[1] == "push_back" and find_all((n[4],), lambda k: k[0] == "mcall" and k[1] == "content" and find_all((k[3],), lambda q: q == ("var", var)))):
+            pushes_own = True
+        conv = find_all(iff[2], lambda n: n[0] == "mcall" and n[1] == "toListOffsetArray64" and find_all((n[3],), lambda q: q == ("var", var)))
+        adv = find_all(iff[2], lambda n: n[0] == "aug" and n[1] == "+" and "contentlength" in repr(n[2]) and find_all((n[3],), lambda k: k[0] == "mcall" and k[1] == "content"))
+        if conv and adv and not find_all((adv[0][3],), lambda q: q == ("var", var)):
+            advances_converted = True
+    where = "%s:%d" % (f["file"], f["line"])
+    if not (pushes_own and advances_converted):
+        r.ok("mergemany-independent", "ListArray::mergemany does not (any longer) mix the RegularArray's own content with the converted node's content length")
+        return r.done()
+    r.ok("mergemany-depends", "dependency present: own content merged, converted content's length advances the base")
+    for g in fb.lib_funcs():
+        if g["cls"] != "RegularArray" or g["name"] != "broadcast_tooffsets64":
+            continue
+        n = 0
+
+        def visit(stmts, size1):
+            nonlocal n
+            for st in stmts:
+                if st[0] == "if" and st[1][0] != "declcond":
+                    c = cexpr(st[1])
+                    is1 = c in (("bin", "==", ("const", 1), ("member", ("this",), "size_")), ("bin", "==", ("member", ("this",), "size_"), ("const", 1)))
+                    visit(st[2], size1 or is1)
+                    visit(st[3], size1)
+                    continue
+                for b_ in cs.sub_blocks(st):
+                    visit(b_, size1)
+                for node in find_all((st,), lambda k: k[0] in ("make", "ctor") and len(k) >= 3 and "ListOffsetArray" in str(k[1]) and len(k[2]) >= 4):
+                    n += 1
+                    key = "RegularArray::broadcast_tooffsets64#%d" % n
+                    if size1:
+                        r.ok(key, "under size_ == 1: the content has exactly length() elements, any same-length rearrangement is fine")
+                        continue
+                    own = any(a == ("member", ("this",), "content_") for a in node[2])
+                    r.check(own, key, "%s:%d" % (g["file"], node[-1] if isinstance(node[-1], int) else g["line"]),
+                            "RegularArray::broadcast_tooffsets64 returns a list node whose content is not content_ itself, but ListArray::mergemany (%s) advances its content base by that node's content length while merging content_" % where,
+                            detail="content_ passed through unchanged")
+        visit(g["body"], False)
+    return r.done()
